@@ -276,8 +276,26 @@ def memo_rule(rc, prefixes):
             if guard is None:
                 continue
             n += 1
-            key_names = {x.id for x in ast.walk(node.targets[0].slice) if isinstance(x, ast.Name)}
-            args = list(node.value.args) + [k.value for k in node.value.keywords]
+            from ..util import deep_resolve, single_defs
+            sd = single_defs(f)
+            key_e = deep_resolve(node.targets[0].slice, sd)
+            # parameters used as mappings somewhere in the function: a key that only sees `sorted(P)` / `tuple(P)` / `P.keys()` captures the
+            # mapping's keys, not its values
+            dict_like = {p_ for p_ in f.params if any(isinstance(x, ast.Attribute) and x.attr in ("items", "keys", "values", "get") and dotted(x.value) == p_ for x in ast.walk(f.node))}
+            keys_only = set()
+            for x in ast.walk(key_e):
+                if isinstance(x, ast.Call) and isinstance(x.func, ast.Name) and x.func.id in ("sorted", "tuple", "list", "set", "frozenset", "len") and x.args and isinstance(x.args[0], ast.Name) \
+                        and x.args[0].id in dict_like:
+                    keys_only.add(id(x.args[0]))
+                if isinstance(x, ast.Call) and isinstance(x.func, ast.Attribute) and x.func.attr == "keys" and isinstance(x.func.value, ast.Name) and x.func.value.id in dict_like:
+                    keys_only.add(id(x.func.value))
+            for x in ast.walk(key_e):
+                if isinstance(x, ast.IfExp):
+                    for y in ast.walk(x.test):  # a truthiness / emptiness test carries one bit, not the value
+                        if isinstance(y, ast.Name):
+                            keys_only.add(id(y))
+            key_names = {x.id for x in ast.walk(key_e) if isinstance(x, ast.Name) and id(x) not in keys_only}
+            args = [deep_resolve(a, sd) for a in list(node.value.args) + [k.value for k in node.value.keywords]]
             arg_names = {x.id for a in args for x in ast.walk(a) if isinstance(x, ast.Name)}
             missing = sorted((arg_names & set(f.params)) - key_names - {"self"})
             rc.ob(f"{f.file}:{f.qual}: memo {norm(node, 80)} keyed by {sorted(key_names)}")
